@@ -94,3 +94,8 @@ def cases(tier, seed, ctx=None):
                 segs = [head] + ([sent[:4], sent[4:]] if len(sent) > 4 else ([sent] if sent else []))
                 ops = [G.Construct] + [G.Feed(x) for x in segs if x] + [G.Turn]
                 yield ("slot", [regs, ops, [ver, []], [15, name, big, len(head)]], "huge-declared-length")
+    # bodies of several MiB over a real connection (family life, kind 2 = a whole-body slot that answers when it is invoked): the slot
+    # is invoked once the last byte is there, however large the body
+    for size in ((9 * 1024 * 1024 + 1,) if tier == "quick" else (4 * 1024 * 1024, 8 * 1024 * 1024 + 1, 12 * 1024 * 1024)):
+        rq = b"POST /slot HTTP/1.1\r\nContent-Length: %d\r\n\r\n" % size + b"z" * size
+        yield ("life", [2, [[rq, len(rq), 2]], 0, 1], "whole-body-of-several-MiB")
